@@ -185,6 +185,10 @@ class FunctionVC(Executor):
                 v = IVal(smt.ival(t))
             yield s, v
             return
+        if decl.get("coroutine"):
+            # calling a coroutine function only creates the coroutine object: body effects and exceptions happen at `await`
+            yield s, PyVal(("coro", f".{name}", decl, {"self": recv, "args": args, "kwargs": kwargs}), f"coro:{name}")
+            return
         s.trace.append(("call", f".{name}", {"self": recv, "args": args, "kwargs": kwargs}))
         yield from calls.opaque_result(self, f".{name}", s, decl.get("returns", ANY), decl)
 
